@@ -668,6 +668,34 @@ mod recv {
 
 }
 
+/// A type that hands out mutable access to elements must not be duplicable: `CloneProbe(&x).dup()` resolves to the
+/// inherent method (and really clones) exactly when `X: Clone`; the twin then reaches the same elements mutably.
+pub struct CloneProbe<'x, X>(pub &'x X);
+impl<'x, X: Clone> CloneProbe<'x, X> {
+    pub fn dup(&self) -> Option<X> {
+        Some(self.0.clone())
+    }
+}
+pub trait NoClone<X> {
+    fn dup(&self) -> Option<X>;
+}
+impl<'x, X> NoClone<X> for CloneProbe<'x, X> {
+    fn dup(&self) -> Option<X> {
+        None
+    }
+}
+
+fn judge_twins(c: &mut Ctx, what: &str, a: Vec<usize>, b: Option<Vec<usize>>) {
+    c.evaluations += 1;
+    c.sig_parts(&[crate::ctx::prop_salt(what), 7, b.is_some() as u64]);
+    c.bump("duplication_offers");
+    if let Some(b) = b {
+        if let Some(x) = a.iter().find(|x| b.contains(x)) {
+            crate::viol!("{} could be cloned, and the original and its clone both hand out mutable access to the element at {:#x} ({} element(s) reachable twice)", what, x, a.iter().filter(|x| b.contains(x)).count());
+        }
+    }
+}
+
 fn judge(c: &mut Ctx, what: &str, got: Vec<usize>, shared_alive: &[usize]) {
     c.evaluations += 1;
     c.sig_parts(&[crate::ctx::prop_salt(what), got.is_empty() as u64]);
@@ -677,6 +705,34 @@ fn judge(c: &mut Ctx, what: &str, got: Vec<usize>, shared_alive: &[usize]) {
             "{} called through a shared reference to the collection handed out mutable access to the element at {:#x} while a shared reference to the same element is alive ({} element(s) reachable this way)",
             what, a, got.len()
         );
+    }
+}
+
+fn clone_probe(c: &mut Ctx, n: u32) {
+    use recv::Harvest;
+    {
+        let mut m = mk_map::<MOk, MOk, MOk, MOk>(n);
+        {
+            let it = m.iter_mut();
+            let twin = CloneProbe(&it).dup();
+            judge_twins(c, "hash_map::IterMut", it.addrs(), twin.map(|t| t.addrs()));
+        }
+        {
+            let it = m.values_mut();
+            let twin = CloneProbe(&it).dup();
+            judge_twins(c, "hash_map::ValuesMut", it.addrs(), twin.map(|t| t.addrs()));
+        }
+        let mut t = mk_table::<MOk, MOk>(n);
+        {
+            let it = t.iter_mut();
+            let twin = CloneProbe(&it).dup();
+            judge_twins(c, "hash_table::IterMut", it.addrs(), twin.map(|t| t.addrs()));
+        }
+        {
+            let it = t.iter_hash_mut(crate::util::mix(1));
+            let twin = CloneProbe(&it).dup();
+            judge_twins(c, "hash_table::IterHashMut", it.addrs(), twin.map(|t| t.addrs()));
+        }
     }
 }
 
@@ -776,6 +832,7 @@ pub fn run(c: &mut Ctx) {
         table_probes!(c2, o2, n, "A", "So", MOk, MSo);
         table_probes!(c2, o2, n, "A", "Yo", MOk, MYo);
         receiver_probe(c, n);
+        clone_probe(c, n);
         let after: Vec<u64> = FOREIGN.iter().map(|a| a.load(Ordering::Relaxed)).collect();
         c.add("probes", o.probes);
         c.add("objects_the_compiler_let_cross_by_value", o.sent);
